@@ -521,6 +521,11 @@ def c03_groups(tier, tag='C03'):
     for M in Ms:
         gs.append(Group('%s.decode.M=%d' % (tag, M), 'c03_encrypt.c', 'h_decode', extract=[(NF, 'modSwitchToTorus32'), (NF, 'approxPhase')],
                         defines={'H_DECODE': None, 'VERIF_MSIZE': '%du' % M}, instance={'Msize': M}, replay='numeric'))
+    # TLWE wiring (ring products are monitors: assumed exact negacyclic multiply-accumulate)
+    gs.append(Group(tag + '.tLweSymEncrypt', 'c03_encrypt.c', 'h_tLweSymEncrypt', extract=[(TL, 'tLweSymEncrypt')], loops=True, defines={'H_TLWE_ENC': None}))
+    gs.append(Group(tag + '.tLweSymEncryptT', 'c03_encrypt.c', 'h_tLweSymEncrypt', extract=[(TL, 'tLweSymEncryptT')], defines={'H_TLWE_ENC': None, 'ENC_T': None}))
+    gs.append(Group(tag + '.tLwePhase', 'c03_encrypt.c', 'h_tLwePhase', extract=[(TL, 'tLwePhase')], loops=True, defines={'H_TLWE_PHASE': None}))
+    gs.append(Group(tag + '.tLweApproxPhase', 'c03_encrypt.c', 'h_tLweApproxPhase', extract=[(TL, 'tLweApproxPhase')], loops=True, defines={'H_TLWE_PHASE': None}))
     # noiseless trivial samples: all-zero mask, b = mu (C14 contract enforced on the real body)
     gs.append(Group(tag + '.dep.lweNoiselessTrivial', 'c14_lwe.c', 'h_lweNoiselessTrivial', extract=[(LF, 'lweNoiselessTrivial')], enforce='lweNoiselessTrivial', loops=True))
     return gs
@@ -739,7 +744,7 @@ PROPS = {
                        'bounded stand-in in n. TLWE / TGSW decryption is not claimed.',
         'assumptions': STD_ASSUME + [
             'pairing of the encryption loop and the phase loop (sum a_i*s_i): bounded stand-in, n in {1,2,4,8}(..32), all coefficient / key / error values symbolic (z3)',
-            'TLWE and TGSW encryption/decryption go through the FFT product (assumed exact negacyclic multiply-accumulate): not claimed here',
+            'TLWE: wiring of tLweSymEncrypt(T) / tLwePhase / tLweApproxPhase proved with the ring products as monitors (ASSUMED: torusPolynomialAddMulR/SubMulR equal the exact negacyclic multiply-accumulate); tLweSymDecrypt(T) and all TGSW decryption (tGswSymDecrypt) are not under contract',
             'the samplers are declared-only draws (assumed contract of libstdc++); the gaussian error is an arbitrary finite double, its size is not bounded by alpha here',
             'Msize enumerated; noise bound "Msize*alpha <= 1/20" enters only as the decoding radius |e| < 1/(2 Msize) - 2 units',
         ],
